@@ -22,8 +22,9 @@ GT = "geo_types::geometry::"
 def run(rep, tier):
     rep.explanation = ("Structural clauses only: bearing normalisation, length as a sum-fold of segment distances, lat/lon argument order at the "
                        "geographiclib boundary, consistent use of the measure's own radius, and the wrap of the rhumb longitude difference "
-                       "(decided as polynomial identities on the path terms). Millimetre-scale round trips and all other numeric identities over "
-                       "continuous parameters cannot be bounded by a static argument in reach and are not decided.")
+                       "(decided as polynomial identities on the path terms); plus R16.7: the laws the property states, evaluated for Haversine and "
+                       "Rhumb on 132 ordered witness pairs through the extracted path tables (no execution of geo). For arbitrary parameter values the "
+                       "numeric identities cannot be bounded by a static argument in reach and are not decided; Geodesic is delegated to geographiclib.")
     rep.trusted = ["rustc MIR", "geographiclib-rs", "libm"]
     rep.assumptions = ["longitudes in [-180, 180], latitudes in [-90, 90]"]
     F = Facts("default")
